@@ -34,6 +34,10 @@ BODIES = [
     (["\tLDI\t@0 ,\t@1\t; Mixed Case Comment", "  Mov R1 , @0", "  .db \"MiXeD\" , 'Q'"], ["rh", "e8"]),
     (["  .db \"@\", 64, \"e@x\"", "  ldi @0, '@'"], ["rh"]),
     (["Lbl_@0: nop", "  .dw LBL_@0, lbl_@0 + 1"], ["id"]),
+    # bodies that begin with a segment directive (the expansion does not start in the caller's segment)
+    ([".eseg", "  .db @0, 7", ".cseg", "  nop"], ["e8"]),
+    ([".dseg", "  .byte 3", ".cseg", "  ldi r16, @0"], ["e8"]),
+    ([".cseg", "  .dw @0"], ["e"]),
 ]
 REGS = ["r0", "r7", "r15", "r16", "r20", "r31"]
 
@@ -144,6 +148,24 @@ def gen_case(rng):
     return "\n".join(prog) + "\n", "\n".join(prelude + expanded + tail) + "\n"
 
 
+def segment_first_pairs():
+    """(program, hand expansion): macro bodies that begin or end with .org / a segment directive, called at address 0 and elsewhere,
+    and calls of other macros behind a segment directive or an .org inside a body"""
+    pairs = []
+    for pre in ("", " nop\n", ".org 0x30\n"):
+        pairs.append((".macro at\n.org 0x40\n .dw @0\n.endm\n" + pre + " at 5\n nop\n", pre + ".org 0x40\n .dw (5)\n nop\n"))
+        pairs.append((".macro ee\n.eseg\n .db @0\n.endm\n" + pre + " ee 9\n.cseg\n nop\n", pre + ".eseg\n .db (9)\n.cseg\n nop\n"))
+        pairs.append((".macro ee\n.eseg\n .db @0, 1, 2\n.cseg\n.endm\n" + pre + " ee 9\n nop\n", pre + ".eseg\n .db (9), 1, 2\n.cseg\n nop\n"))
+        pairs.append((".macro ee\n.eseg\n .db @0, 1, 2\n.endm\n" + pre + " ee 9\n .db 4\n.cseg\n nop\n", pre + ".eseg\n .db (9), 1, 2\n .db 4\n.cseg\n nop\n"))
+        pairs.append((".macro var\n.dseg\nv@0: .byte 2\n.cseg\n.endm\n" + pre + " var 1\n var 2\n .dw v1, v2\n", pre + ".dseg\nv1: .byte 2\n.cseg\n.dseg\nv2: .byte 2\n.cseg\n .dw v1, v2\n"))
+        pairs.append((".macro skipto\n.org @0\n.endm\n" + pre + " skipto 0x50\n .dw 1\n skipto 0x60\n .dw 2\n", pre + ".org (0x50)\n .dw 1\n.org (0x60)\n .dw 2\n"))
+        pairs.append((".macro inner\n .dw @0, @0\n.endm\n.macro outer\n nop\n.dseg\n .byte 1\n.cseg\n inner @0\n inner 2\n.endm\n" + pre + " outer 7\n nop\n",
+                      pre + " nop\n.dseg\n .byte 1\n.cseg\n .dw (7), (7)\n .dw (2), (2)\n nop\n"))
+        pairs.append((".macro inner\n .dw @0\n.endm\n.macro outer\n inner 1\n.org 0x80\n inner 2\n.eseg\n .db 3\n.cseg\n inner 4\n.endm\n" + pre + " outer\n",
+                      pre + " .dw (1)\n.org 0x80\n .dw (2)\n.eseg\n .db 3\n.cseg\n .dw (4)\n"))
+    return pairs
+
+
 def split_over_files(rng, prog, root):
     """the same macro program with its definitions moved into included files (one file, or one nested in another, included
     before or after the calls): a definition is a definition wherever it is written"""
@@ -225,6 +247,18 @@ def run(res):
                       (" .dw (5)\n" if taken else "") + " .dw (6)\n"))
         pairs.append((".macro keep\n .dw 7\n.endm\n.ifdef NOPE\n.macro shadow\n .dw 8\n.if 1\n nop\n.endif\n.endm\n.endif\n keep\n", " .dw 7\n"))
         pairs.append((" keep\n.macro keep\n .dw 7\n.endm\n.if 0\n.macro a\n nop\n.endm\n.macro b\n nop\n.endm\n.endif\n keep\n", " .dw 7\n .dw 7\n"))
+    # a body that begins with .org / a segment directive, called at address 0 and elsewhere; calls of other macros BEHIND a segment
+    # directive or an .org inside a body
+    pairs += segment_first_pairs()
+    for pre in ():
+        pairs.append((".macro at\n.org 0x40\n .dw @0\n.endm\n" + pre + " at 5\n nop\n", pre + ".org 0x40\n .dw (5)\n nop\n"))
+        pairs.append((".macro ee\n.eseg\n .db @0\n.endm\n" + pre + " ee 9\n.cseg\n nop\n", pre + ".eseg\n .db (9)\n.cseg\n nop\n"))
+        pairs.append((".macro ee\n.eseg\n .db @0, 1, 2\n.cseg\n.endm\n" + pre + " ee 9\n nop\n", pre + ".eseg\n .db (9), 1, 2\n.cseg\n nop\n"))
+        pairs.append((".macro var\n.dseg\nv@0: .byte 2\n.cseg\n.endm\n" + pre + " var 1\n var 2\n .dw v1, v2\n", pre + ".dseg\nv1: .byte 2\n.cseg\n.dseg\nv2: .byte 2\n.cseg\n .dw v1, v2\n"))
+        pairs.append((".macro inner\n .dw @0, @0\n.endm\n.macro outer\n nop\n.dseg\n .byte 1\n.cseg\n inner @0\n inner 2\n.endm\n" + pre + " outer 7\n nop\n",
+                      pre + " nop\n.dseg\n .byte 1\n.cseg\n .dw (7), (7)\n .dw (2), (2)\n nop\n"))
+        pairs.append((".macro inner\n .dw @0\n.endm\n.macro outer\n inner 1\n.org 0x80\n inner 2\n.eseg\n .db 3\n.cseg\n inner 4\n.endm\n" + pre + " outer\n",
+                      pre + " .dw (1)\n.org 0x80\n .dw (2)\n.eseg\n .db 3\n.cseg\n .dw (4)\n"))
     errs = [(".macro m\n nop\n.endm\n.if 0\n.macro gone\n nop\n.endm\n.endif\n gone\n", "undefined-macro"),
             (".macro m\n nop\n.endm\n undefined_macro_call\n", "undefined-macro"),
             (".macro m\n ldi r16, @0\n.endm\n m\n", "missing-argument"),
